@@ -1,6 +1,660 @@
-//! C11 — monitor not built yet.
-use crate::core::Ctx;
+//! C11 — the digest handed to the public-key primitive is exactly the RFC 9580 5.2.4 digest.
+//!
+//! Sign side: a recording signer is passed to every signing API; the reference recomputes the
+//! digest from the *serialised* signature packet (reference parser) and the signed object.
+//! Verify side: the reference builds signatures (packet encoded by the reference, signature
+//! value made with the raw `SigningKey::sign` over the reference digest); the library's verify
+//! APIs must accept them and a recording verifier must see the same digest.
+
+use bytes::Bytes;
+use pgp::composed::{DetachedSignature, Message, MessageBuilder, SignedSecretKey};
+use pgp::crypto::hash::HashAlgorithm;
+use pgp::packet::{
+    Notation, PacketHeader, PublicKey, Signature, SignatureConfig, SignatureType, Subpacket,
+    SubpacketData, UserAttribute, UserId,
+};
+use pgp::ser::Serialize;
+use pgp::types::{KeyDetails, KeyVersion, Password, SignatureBytes, SigningKey, Tag, Timestamp};
+use rand::{Rng, RngCore};
+use serde_json::json;
+use std::io::Read;
+
+use crate::core::{describe_case, hexs, Ctx};
+use crate::rec::{RecSigner, RecVerifier};
+use crate::rfc;
+use crate::rfc::sig::{encode_subpacket, key_hash_framing, parse_sig, uid_hash_framing, RefSig};
+use crate::zoo::{self, Alg, Spec};
+
+fn sigbytes_wire(s: &SignatureBytes) -> Vec<u8> {
+    match s {
+        SignatureBytes::Mpis(m) => m.iter().flat_map(|x| rfc::mpi(x.as_ref())).collect(),
+        SignatureBytes::Native(b) => b.to_vec(),
+    }
+}
+
+struct Keys {
+    name: String,
+    key: SignedSecretKey,
+    prim_body: Vec<u8>,
+    sub_body: Option<Vec<u8>>,
+    v6: bool,
+}
+
+fn keys(ctx: &Ctx) -> Vec<Keys> {
+    let mut specs = vec![];
+    let mut a = Spec::simple(false, Alg::Ed25519Legacy, Some(Alg::EcdhCv25519));
+    a.sign_sub = Some(Alg::EcdsaP256);
+    specs.push(a);
+    let mut b = Spec::simple(true, Alg::Ed25519, Some(Alg::X25519));
+    b.sign_sub = Some(Alg::Ed25519);
+    specs.push(b);
+    specs.push(Spec::simple(false, Alg::EcdsaP384, Some(Alg::EcdhP384)));
+    specs.push(Spec::simple(true, Alg::Ed448, Some(Alg::X448)));
+    specs.push(Spec::simple(false, Alg::Rsa2048, Some(Alg::Rsa2048)));
+    if !ctx.quick() {
+        specs.push(Spec::simple(true, Alg::EcdsaP521, Some(Alg::EcdhP521)));
+        specs.push(Spec::simple(false, Alg::EcdsaK256, None));
+        specs.push(Spec::simple(false, Alg::Dsa2048, None));
+        specs.push(Spec::simple(true, Alg::Rsa2048, None));
+    }
+    specs
+        .into_iter()
+        .map(|s| {
+            let key = zoo::key(&s, 2);
+            let prim_body = key.primary_key.public_key().to_bytes().unwrap();
+            let sub_body = key.secret_subkeys.first().map(|k| k.key.public_key().to_bytes().unwrap());
+            Keys { name: s.name(), v6: s.v6, key, prim_body, sub_body }
+        })
+        .collect()
+}
+
+const HASHES: [(u8, HashAlgorithm); 6] = [
+    (8, HashAlgorithm::Sha256),
+    (9, HashAlgorithm::Sha384),
+    (10, HashAlgorithm::Sha512),
+    (11, HashAlgorithm::Sha224),
+    (12, HashAlgorithm::Sha3_256),
+    (14, HashAlgorithm::Sha3_512),
+];
+
+/// hashed subpacket sets built with the library API (sign side)
+fn subpacket_set(kind: usize, key: &impl KeyDetails, rng: &mut impl Rng) -> Vec<Subpacket> {
+    let ts = Subpacket::regular(SubpacketData::SignatureCreationTime(Timestamp::from_secs(1_600_000_000 + kind as u32))).unwrap();
+    let fp = Subpacket::regular(SubpacketData::IssuerFingerprint(key.fingerprint())).unwrap();
+    let note = |n: usize, rng: &mut dyn RngCore| {
+        let mut v = vec![0u8; n];
+        rng.fill_bytes(&mut v);
+        Subpacket::regular(SubpacketData::Notation(Notation { readable: false, name: Bytes::from_static(b"test@example.org"), value: v.into() })).unwrap()
+    };
+    match kind % 8 {
+        0 => vec![],
+        1 => vec![ts, fp],
+        2 => vec![Subpacket::critical(SubpacketData::SignatureCreationTime(Timestamp::from_secs(77))).unwrap(), fp],
+        3 => vec![ts, fp, note(150, rng)],          // 1-octet length edge (<192 incl. header?)
+        4 => vec![ts, note(200, rng), fp],          // 2-octet subpacket length
+        5 => vec![ts, fp, note(16400, rng)],        // 5-octet subpacket length
+        6 => vec![ts, fp, note(60000, rng)],        // close to the v4 64 KiB area limit
+        _ => vec![
+            ts,
+            fp,
+            Subpacket::regular(SubpacketData::PolicyURI("https://example.org/policy".into())).unwrap(),
+            Subpacket::regular(SubpacketData::SignersUserID(Bytes::from_static(b"me@example.org"))).unwrap(),
+            Subpacket::critical(SubpacketData::KeyFlags({
+                let mut f = pgp::packet::KeyFlags::default();
+                f.set_sign(true);
+                f
+            }))
+            .unwrap(),
+        ],
+    }
+}
+
+fn mk_config(v6: bool, typ: SignatureType, key: &impl KeyDetails, hash: HashAlgorithm, rng: &mut (impl Rng + rand::CryptoRng)) -> SignatureConfig {
+    if v6 {
+        SignatureConfig::v6(rng, typ, key.algorithm(), hash).expect("v6 config")
+    } else {
+        SignatureConfig::v4(typ, key.algorithm(), hash)
+    }
+}
+
+/// compares one recorded digest with the reference digest of the produced signature
+fn judge_sign(ctx: &mut Ctx, what: &str, sig: &Signature, seen: Vec<crate::rec::SeenDigest>, content: &[&[u8]], replay: serde_json::Value) {
+    ctx.eval();
+    let body = match sig.to_bytes() {
+        Ok(b) => b,
+        Err(e) => {
+            ctx.inconclusive(format!("cannot serialise signature: {e}"));
+            return;
+        }
+    };
+    let rs = match parse_sig(&body) {
+        Ok(r) => r,
+        Err(e) => {
+            ctx.violation(format!("C11/sign/{what}/reference-cannot-parse-signature"), e, json!({"base": replay, "sig": hexs(&body)}));
+            return;
+        }
+    };
+    let Some(want) = rs.digest_over(content) else {
+        ctx.inconclusive("reference has no such hash");
+        return;
+    };
+    let vclass = format!("v{}", rs.version);
+    if seen.len() != 1 {
+        ctx.violation(format!("C11/sign/{what}/{vclass}/signer-called-{}-times", seen.len()), "expected exactly one call of the signing primitive", replay);
+        return;
+    }
+    if seen[0].hash_alg != rs.hash_alg {
+        ctx.violation(format!("C11/sign/{what}/{vclass}/hash-alg-mismatch"), format!("primitive got hash {} but packet says {}", seen[0].hash_alg, rs.hash_alg), replay.clone());
+    }
+    if seen[0].digest != want {
+        ctx.violation(
+            format!("C11/sign/{what}/{vclass}/digest-mismatch"),
+            format!("digest handed to the signing primitive {} != RFC 5.2.4 digest {} (type {:#x})", hex::encode(&seen[0].digest), hex::encode(&want), rs.typ),
+            json!({"base": replay, "sig": hexs(&body)}),
+        );
+    } else if rs.left16 != want[..2] {
+        ctx.violation(format!("C11/sign/{what}/{vclass}/left16-mismatch"), "left 16 bits field is not the digest prefix", json!({"base": replay, "sig": hexs(&body)}));
+    }
+}
+
+/// Reference-built signature over `content` made with the raw primitive of `signer`.
+#[allow(clippy::too_many_arguments)]
+fn ref_signature(
+    version: u8,
+    typ: u8,
+    signer: &dyn SigningKey,
+    hash: (u8, HashAlgorithm),
+    hashed: Vec<u8>,
+    unhashed: Vec<u8>,
+    created: u32,
+    content: &[&[u8]],
+    rng: &mut impl Rng,
+) -> Option<(Signature, Vec<u8>, Vec<u8>)> {
+    let mut salt = vec![];
+    if version == 6 {
+        salt = vec![0u8; rfc::salt_len(hash.0)?];
+        rng.fill_bytes(&mut salt);
+    }
+    let mut issuer = [0u8; 8];
+    issuer.copy_from_slice(signer.legacy_key_id().as_ref());
+    let mut rs = RefSig {
+        version,
+        typ,
+        pub_alg: signer.algorithm().into(),
+        hash_alg: hash.0,
+        created,
+        issuer,
+        hashed,
+        unhashed,
+        left16: [0, 0],
+        salt,
+        sig_data: vec![],
+        off_hashed: 0,
+        off_unhashed: 0,
+        off_left16: 0,
+        off_salt: 0,
+        off_sig: 0,
+    };
+    let digest = rs.digest_over(content)?;
+    rs.left16 = [digest[0], digest[1]];
+    let sb = match signer.sign(&Password::empty(), hash.1, &digest) {
+        Ok(s) => s,
+        Err(e) => {
+            eprintln!("ref_signature: raw sign failed: {e} (alg {:?} hash {})", signer.algorithm(), hash.0);
+            return None;
+        }
+    };
+    rs.sig_data = sigbytes_wire(&sb);
+    let body = rs.encode();
+    let sig = match Signature::try_from_reader(PacketHeader::new_fixed(Tag::Signature, body.len() as u32), &body[..]) {
+        Ok(s) => s,
+        Err(e) => {
+            eprintln!("ref_signature: library cannot parse reference signature: {e} (v{version} typ {typ})");
+            return None;
+        }
+    };
+    Some((sig, digest, body))
+}
+
+fn ref_hashed_area(kind: usize, signer: &dyn SigningKey, created: u32, rng: &mut impl Rng) -> Vec<u8> {
+    let mut fp = vec![u8::from(signer.version())];
+    fp.extend(signer.fingerprint().as_bytes());
+    let mut a = vec![];
+    match kind % 6 {
+        0 => {
+            a.extend(encode_subpacket(2, false, &created.to_be_bytes(), 0));
+            a.extend(encode_subpacket(33, false, &fp, 0));
+        }
+        1 => {
+            // non-minimal length encodings (5-octet and 2-octet are not available below 192: use 5)
+            a.extend(encode_subpacket(2, true, &created.to_be_bytes(), 5));
+            a.extend(encode_subpacket(33, false, &fp, 5));
+        }
+        2 => {
+            a.extend(encode_subpacket(33, false, &fp, 0));
+            a.extend(encode_subpacket(2, false, &created.to_be_bytes(), 0));
+            let mut note = vec![0u8, 0, 0, 0, 0, 4, 0, 200];
+            note.extend(b"n@ex");
+            let mut v = vec![0u8; 200];
+            rng.fill_bytes(&mut v);
+            note.extend(v);
+            a.extend(encode_subpacket(20, false, &note, 0));
+        }
+        3 => {
+            a.extend(encode_subpacket(2, false, &created.to_be_bytes(), 0));
+            a.extend(encode_subpacket(33, false, &fp, 0));
+            // unknown, non-critical subpacket
+            a.extend(encode_subpacket(77, false, &[1, 2, 3], 0));
+            // private/experimental
+            a.extend(encode_subpacket(101, false, &[], 0));
+        }
+        4 => {
+            a.extend(encode_subpacket(2, false, &created.to_be_bytes(), 0));
+            a.extend(encode_subpacket(33, false, &fp, 0));
+            let mut note = vec![0x80u8, 0, 0, 0, 0, 4];
+            let n = 30000usize;
+            note.extend((n as u16).to_be_bytes());
+            note.extend(b"n@ex");
+            let mut v = vec![b'x'; n];
+            rng.fill_bytes(&mut v[..16]);
+            note.extend(v);
+            a.extend(encode_subpacket(20, false, &note, 0));
+        }
+        _ => {
+            a.extend(encode_subpacket(2, false, &created.to_be_bytes(), 0));
+            a.extend(encode_subpacket(33, false, &fp, 0));
+            a.extend(encode_subpacket(27, true, &[0x03], 0));
+            a.extend(encode_subpacket(9, false, &86400u32.to_be_bytes(), 0));
+        }
+    }
+    a
+}
 
 pub fn run(ctx: &mut Ctx) {
-    ctx.inconclusive("monitor not built yet");
+    let ks = keys(ctx);
+    let quick = ctx.quick();
+
+    let docs: Vec<Vec<u8>> = vec![
+        vec![],
+        b"a".to_vec(),
+        b"line one\nline two\r\nline three\rend\n".to_vec(),
+        b"trailing cr\r".to_vec(),
+        (0..70000u32).map(|i| if i % 97 == 0 { b'\n' } else { (i % 251) as u8 }).collect(),
+    ];
+    let uid_lens: &[usize] = if quick { &[0, 1, 40, 300, 70000] } else { &[0, 1, 2, 40, 191, 192, 255, 256, 300, 65535, 65536, 70000] };
+
+    for (ki, k) in ks.iter().enumerate() {
+        let slow = k.name.contains("Rsa") || k.name.contains("Dsa");
+        let pubkey = k.key.primary_key.public_key().clone();
+        let kf = key_hash_framing(&k.prim_body);
+        let skf = k.sub_body.as_ref().map(|b| key_hash_framing(b));
+        let mut hashes: Vec<(u8, HashAlgorithm)> = if slow { vec![HASHES[0]] } else if quick { HASHES[..4].to_vec() } else { HASHES.to_vec() };
+        // hash algorithms the key's primitive refuses as too weak (documented policy) are not used
+        hashes.retain(|h| {
+            let d = vec![0x5Au8; rfc::hash_len(h.0).unwrap_or(32)];
+            let ok = k.key.primary_key.sign(&Password::empty(), h.1, &d).is_ok();
+            if !ok {
+                ctx.tally("hash.refused_by_key_policy", 1);
+            }
+            ok
+        });
+        if hashes.is_empty() {
+            hashes.push(HASHES[2]);
+        }
+
+        // ================= sign side
+        for (hi, hash) in hashes.iter().enumerate() {
+            for spk in 0..8usize {
+                if slow && spk % 3 != 1 {
+                    continue;
+                }
+                if !ctx.mine() {
+                    continue;
+                }
+                describe_case(&format!("sign {} hash {} spk {}", k.name, hash.0, spk));
+                let mut rng = ctx.rng("sign", (ki * 1000 + hi * 10 + spk) as u64);
+                let rec = RecSigner::new(&k.key.primary_key);
+                let base = json!({"key": k.name, "hash": hash.0, "subpackets": spk});
+                let cls = |t: &str| format!("{t}");
+
+                // --- documents 0x00 / 0x01 through SignatureConfig::sign and DetachedSignature
+                for (di, doc) in docs.iter().enumerate() {
+                    if (di + spk) % 2 == 1 && quick {
+                        continue;
+                    }
+                    for typ in [SignatureType::Binary, SignatureType::Text] {
+                        let mut c = mk_config(k.v6, typ, &k.key.primary_key, hash.1, &mut rng);
+                        c.hashed_subpackets = subpacket_set(spk, &k.key.primary_key, &mut rng);
+                        let r = ctx.guarded("C11/sign/doc", || base.clone(), || c.sign(&rec, &Password::empty(), &doc[..]));
+                        let Some(r) = r else { continue };
+                        match r {
+                            Ok(sig) => {
+                                let t = u8::from(typ);
+                                ctx.cover(&("sign", &k.name, hash.0, spk, t, di));
+                                ctx.seen("sign.types", format!("{:#04x}-v{}", t, if k.v6 { 6 } else { 4 }));
+                                let canon;
+                                let content: &[u8] = if t == 1 {
+                                    canon = rfc::canon_text(doc);
+                                    &canon
+                                } else {
+                                    doc
+                                };
+                                judge_sign(ctx, &cls("document"), &sig, rec.take(), &[content], json!({"base": base, "doc": di, "typ": t}));
+                            }
+                            Err(e) => {
+                                rec.take();
+                                // the v4 hashed area is limited to 64 KiB: a refusal there is expected
+                                if !(spk % 8 == 6 && !k.v6) {
+                                    ctx.tally("sign.refused", 1);
+                                    ctx.note(format!("sign refused: {e}"));
+                                }
+                            }
+                        }
+                    }
+                }
+                // --- DetachedSignature helpers (default subpackets)
+                if spk == 1 {
+                    for text in [false, true] {
+                        let r = ctx.guarded("C11/sign/detached", || base.clone(), || {
+                            if text {
+                                DetachedSignature::sign_text_data(&mut rng, &rec, &Password::empty(), hash.1, &docs[2][..])
+                            } else {
+                                DetachedSignature::sign_binary_data(&mut rng, &rec, &Password::empty(), hash.1, &docs[2][..])
+                            }
+                        });
+                        if let Some(Ok(ds)) = r {
+                            let canon = rfc::canon_text(&docs[2]);
+                            let content: &[u8] = if text { &canon } else { &docs[2] };
+                            ctx.cover(&("sign-detached", &k.name, hash.0, text));
+                            judge_sign(ctx, "detached", &ds.signature, rec.take(), &[content], json!({"base": base, "detached_text": text}));
+                        } else {
+                            rec.take();
+                        }
+                    }
+                    // inline message signature
+                    let mut b = MessageBuilder::from_bytes("", docs[2].clone());
+                    b.sign(&rec, Password::empty(), hash.1);
+                    if let Some(Ok(bytes)) = ctx.guarded("C11/sign/inline", || base.clone(), || b.to_vec(&mut rng)) {
+                        if let Ok(pk) = rfc::frame::deframe(&bytes) {
+                            if let Some(sp) = pk.iter().rev().find(|p| p.tag == 2) {
+                                if let Ok(sig) = Signature::try_from_reader(PacketHeader::new_fixed(Tag::Signature, sp.body.len() as u32), &sp.body[..]) {
+                                    ctx.cover(&("sign-inline", &k.name, hash.0));
+                                    judge_sign(ctx, "inline", &sig, rec.take(), &[&docs[2]], json!({"base": base, "inline": true}));
+                                }
+                            }
+                        }
+                    }
+                    rec.take();
+                }
+
+                // --- certifications 0x10-0x13, 0x30 over user ids / attributes
+                for (ui, ul) in uid_lens.iter().enumerate() {
+                    if (ui + spk + hi) % 3 != 0 && quick {
+                        continue;
+                    }
+                    let s: String = (0..*ul).map(|i| (b'a' + (i % 26) as u8) as char).collect();
+                    let Ok(uid) = UserId::from_str(Default::default(), &s) else { continue };
+                    let uid_body = uid.to_bytes().unwrap_or_default();
+                    for typ in [SignatureType::CertGeneric, SignatureType::CertPersona, SignatureType::CertCasual, SignatureType::CertPositive, SignatureType::CertRevocation] {
+                        if quick && (u8::from(typ) as usize + ui) % 2 == 0 {
+                            continue;
+                        }
+                        let mut c = mk_config(k.v6, typ, &k.key.primary_key, hash.1, &mut rng);
+                        c.hashed_subpackets = subpacket_set(spk, &k.key.primary_key, &mut rng);
+                        let r = ctx.guarded("C11/sign/cert", || base.clone(), || c.sign_certification(&rec, &pubkey, &Password::empty(), Tag::UserId, &uid));
+                        match r {
+                            Some(Ok(sig)) => {
+                                let t = u8::from(typ);
+                                ctx.cover(&("sign-cert", &k.name, hash.0, spk, t, ul));
+                                ctx.seen("sign.types", format!("{:#04x}-v{}", t, if k.v6 { 6 } else { 4 }));
+                                let uf = uid_hash_framing(if k.v6 { 6 } else { 4 }, false, &uid_body);
+                                judge_sign(ctx, "certification-uid", &sig, rec.take(), &[&kf, &uf], json!({"base": base, "uid_len": ul, "typ": t}));
+                            }
+                            _ => {
+                                rec.take();
+                            }
+                        }
+                    }
+                }
+                // user attribute (image)
+                for il in [0usize, 100, 70000] {
+                    let mut img = vec![0u8; il];
+                    rng.fill_bytes(&mut img);
+                    let Ok(ua) = UserAttribute::new_image(img.into()) else { continue };
+                    let ua_body = ua.to_bytes().unwrap_or_default();
+                    let mut c = mk_config(k.v6, SignatureType::CertPositive, &k.key.primary_key, hash.1, &mut rng);
+                    c.hashed_subpackets = subpacket_set(spk, &k.key.primary_key, &mut rng);
+                    if let Some(Ok(sig)) = ctx.guarded("C11/sign/cert-attr", || base.clone(), || c.sign_certification(&rec, &pubkey, &Password::empty(), Tag::UserAttribute, &ua)) {
+                        ctx.cover(&("sign-cert-attr", &k.name, hash.0, spk, il));
+                        ctx.seen("sign.types", "attr-0x13".to_string());
+                        let uf = uid_hash_framing(if k.v6 { 6 } else { 4 }, true, &ua_body);
+                        judge_sign(ctx, "certification-attribute", &sig, rec.take(), &[&kf, &uf], json!({"base": base, "attr_len": il}));
+                    } else {
+                        rec.take();
+                    }
+                }
+                // --- 0x1F direct key, 0x20 key revocation
+                for typ in [SignatureType::Key, SignatureType::KeyRevocation] {
+                    let mut c = mk_config(k.v6, typ, &k.key.primary_key, hash.1, &mut rng);
+                    c.hashed_subpackets = subpacket_set(spk, &k.key.primary_key, &mut rng);
+                    if let Some(Ok(sig)) = ctx.guarded("C11/sign/key", || base.clone(), || c.sign_key(&rec, &Password::empty(), &pubkey)) {
+                        let t = u8::from(typ);
+                        ctx.cover(&("sign-key", &k.name, hash.0, spk, t));
+                        ctx.seen("sign.types", format!("{:#04x}-v{}", t, if k.v6 { 6 } else { 4 }));
+                        judge_sign(ctx, "direct-key", &sig, rec.take(), &[&kf], json!({"base": base, "typ": t}));
+                    } else {
+                        rec.take();
+                    }
+                }
+                // --- 0x18 subkey binding, 0x28 subkey revocation, 0x19 primary key binding
+                if let (Some(sub), Some(skf)) = (k.key.secret_subkeys.first(), skf.as_ref()) {
+                    let subpub = sub.key.public_key().clone();
+                    for typ in [SignatureType::SubkeyBinding, SignatureType::SubkeyRevocation] {
+                        let mut c = mk_config(k.v6, typ, &k.key.primary_key, hash.1, &mut rng);
+                        c.hashed_subpackets = subpacket_set(spk, &k.key.primary_key, &mut rng);
+                        if let Some(Ok(sig)) = ctx.guarded("C11/sign/subkey", || base.clone(), || c.sign_subkey_binding(&rec, &pubkey, &Password::empty(), &subpub)) {
+                            let t = u8::from(typ);
+                            ctx.cover(&("sign-subkey", &k.name, hash.0, spk, t));
+                            ctx.seen("sign.types", format!("{:#04x}-v{}", t, if k.v6 { 6 } else { 4 }));
+                            judge_sign(ctx, "subkey-binding", &sig, rec.take(), &[&kf, skf], json!({"base": base, "typ": t}));
+                        } else {
+                            rec.take();
+                        }
+                    }
+                }
+                // 0x19 with a signing capable subkey as signer
+                if let Some(ssub) = k.key.secret_subkeys.iter().find(|s| {
+                    matches!(u8::from(s.key.algorithm()), 1 | 17 | 19 | 22 | 27 | 28)
+                }) {
+                    let ssub_pub = ssub.key.public_key().clone();
+                    let ssub_body = ssub_pub.to_bytes().unwrap();
+                    let sskf = key_hash_framing(&ssub_body);
+                    let recs = RecSigner::new(&ssub.key);
+                    let mut c = mk_config(k.v6, SignatureType::KeyBinding, &ssub.key, hash.1, &mut rng);
+                    c.hashed_subpackets = subpacket_set(spk, &ssub.key, &mut rng);
+                    if let Some(Ok(sig)) = ctx.guarded("C11/sign/backsig", || base.clone(), || c.sign_primary_key_binding(&recs, &ssub_pub, &Password::empty(), &pubkey)) {
+                        ctx.cover(&("sign-backsig", &k.name, hash.0, spk));
+                        ctx.seen("sign.types", format!("0x19-v{}", if k.v6 { 6 } else { 4 }));
+                        judge_sign(ctx, "primary-key-binding", &sig, recs.take(), &[&kf, &sskf], json!({"base": base, "typ": 0x19}));
+                    }
+                }
+            }
+        }
+
+        // ================= verify side: reference-made signatures
+        let version: u8 = if k.v6 { 6 } else { 4 };
+        let nver = if slow { 6 } else { ctx.qt(36, 240) };
+        for vi in 0..nver {
+            if !ctx.mine() {
+                continue;
+            }
+            describe_case(&format!("verify {} #{}", k.name, vi));
+            let mut rng = ctx.rng("verify", (ki * 100000 + vi) as u64);
+            let hash = hashes[vi % hashes.len()];
+            let created: u32 = rng.gen_range(1_000_000_000..1_900_000_000);
+            let signer: &dyn SigningKey = &k.key.primary_key;
+            let hashed = ref_hashed_area(vi, signer, created, &mut rng);
+            let unhashed = if version == 4 && vi % 2 == 0 { encode_subpacket(16, false, signer.legacy_key_id().as_ref(), 0) } else { vec![] };
+            let base = json!({"key": k.name, "hash": hash.0, "area": vi % 6, "i": vi});
+            let ver = RecVerifier::new(&pubkey);
+
+            // which object
+            let obj = vi % 7;
+            let doc = &docs[vi % docs.len()];
+            let canon = rfc::canon_text(doc);
+            let uid_s: String = (0..uid_lens[vi % uid_lens.len()]).map(|i| (b'A' + (i % 26) as u8) as char).collect();
+            let uid = UserId::from_str(Default::default(), &uid_s).unwrap();
+            let uid_body = uid.to_bytes().unwrap_or_default();
+            let uf = uid_hash_framing(version, false, &uid_body);
+            let subpub = k.key.secret_subkeys.first().map(|s| s.key.public_key().clone());
+            let (typ, content): (u8, Vec<&[u8]>) = match obj {
+                0 => (0x00, vec![&doc[..]]),
+                1 => (0x01, vec![&canon[..]]),
+                2 => ([0x10u8, 0x11, 0x12, 0x13, 0x30][vi / 7 % 5], vec![&kf[..], &uf[..]]),
+                3 => (0x1F, vec![&kf[..]]),
+                4 => (0x20, vec![&kf[..]]),
+                5 if skf.is_some() => (0x18, vec![&kf[..], &skf.as_ref().unwrap()[..]]),
+                6 if skf.is_some() => (0x28, vec![&kf[..], &skf.as_ref().unwrap()[..]]),
+                _ => (0x00, vec![&doc[..]]),
+            };
+            let Some((sig, want, body)) = ref_signature(version, typ, signer, hash, hashed.clone(), unhashed.clone(), created, &content, &mut rng) else {
+                ctx.inconclusive("could not build reference signature");
+                continue;
+            };
+            let replay = json!({"base": base, "typ": typ, "sig": hexs(&body)});
+            let r = ctx.guarded("C11/verify", || replay.clone(), || match typ {
+                0x00 | 0x01 => sig.verify(&ver, &doc[..]),
+                0x10..=0x13 | 0x30 => sig.verify_certification(&ver, Tag::UserId, &uid),
+                0x1F | 0x20 => sig.verify_key(&ver),
+                _ => sig.verify_subkey_binding(&ver, subpub.as_ref().unwrap()),
+            });
+            ctx.eval();
+            ctx.cover(&("verify", &k.name, typ, vi));
+            ctx.seen("verify.types", format!("{:#04x}-v{}", typ, version));
+            let seen = ver.take();
+            match r {
+                None => {}
+                Some(Ok(())) => {
+                    if seen.len() != 1 || seen[0].digest != want {
+                        ctx.violation(format!("C11/verify/v{version}/digest-mismatch"), format!("library verified a reference signature but hashed a different digest (type {typ:#x})"), replay.clone());
+                    }
+                }
+                Some(Err(e)) => {
+                    let digest_seen = seen.first().map(|s| hex::encode(&s.digest)).unwrap_or_default();
+                    ctx.violation(
+                        format!("C11/verify/v{version}/reference-signature-rejected/type-{typ:#04x}"),
+                        format!("library rejected a signature built per RFC 5.2.4 by the reference: {e}; digest seen by primitive: {digest_seen}, reference digest {}", hex::encode(&want)),
+                        replay.clone(),
+                    );
+                }
+            }
+            // inline path for document signatures: [sig][literal] prefixed message
+            if typ <= 1 && vi % 2 == 0 {
+                let mut lit = vec![b'b', 0, 0, 0, 0, 0];
+                lit.extend_from_slice(doc);
+                let mut msg = rfc::frame::frame(2, &body, &rfc::frame::LenForm::NewMin).unwrap();
+                msg.extend(rfc::frame::frame(11, &lit, &rfc::frame::LenForm::NewMin).unwrap());
+                let ver2 = RecVerifier::new(&pubkey);
+                let r = ctx.guarded("C11/verify-inline", || replay.clone(), || -> Result<(), String> {
+                    let mut m = Message::from_bytes(&msg[..]).map_err(|e| e.to_string())?;
+                    let mut out = vec![];
+                    m.read_to_end(&mut out).map_err(|e| e.to_string())?;
+                    m.verify(&ver2).map(|_| ()).map_err(|e| e.to_string())
+                });
+                ctx.eval();
+                let seen = ver2.take();
+                match r {
+                    Some(Ok(())) => {
+                        if seen.len() != 1 || seen[0].digest != want {
+                            ctx.violation(format!("C11/verify-inline/v{version}/digest-mismatch"), "inline verification hashed a different digest", replay.clone());
+                        }
+                    }
+                    Some(Err(e)) => ctx.violation(format!("C11/verify-inline/v{version}/reference-signature-rejected"), e, replay.clone()),
+                    None => {}
+                }
+            }
+            if vi < 2 {
+                ctx.sample(json!({"family": "verify", "key": k.name, "typ": typ, "digest": hex::encode(&want), "sig_body": hexs(&body)}));
+            }
+        }
+
+        // ================= v3 signatures (verify only), made by the reference with this key (v4 keys)
+        if !k.v6 {
+            for vi in 0..ctx.qt(4, 24) {
+                if !ctx.mine() {
+                    continue;
+                }
+                let mut rng = ctx.rng("v3", (ki * 1000 + vi) as u64);
+                let hash = hashes[vi % hashes.len()];
+                let doc = &docs[vi % docs.len()];
+                let canon = rfc::canon_text(doc);
+                let typ = (vi % 2) as u8;
+                let content: Vec<&[u8]> = if typ == 1 { vec![&canon[..]] } else { vec![&doc[..]] };
+                let created: u32 = rng.gen();
+                let Some((sig, want, body)) = ref_signature(3, typ, &k.key.primary_key, hash, vec![], vec![], created, &content, &mut rng) else { continue };
+                let ver = RecVerifier::new(&pubkey);
+                let replay = json!({"key": k.name, "v3": true, "sig": hexs(&body)});
+                let r = ctx.guarded("C11/verify-v3", || replay.clone(), || sig.verify(&ver, &doc[..]));
+                ctx.eval();
+                ctx.cover(&("verify-v3", &k.name, vi));
+                ctx.seen("verify.types", format!("{:#04x}-v3", typ));
+                let seen = ver.take();
+                match r {
+                    Some(Ok(())) => {
+                        if seen.len() != 1 || seen[0].digest != want {
+                            ctx.violation("C11/verify/v3/digest-mismatch", "v3 digest differs", replay.clone());
+                        }
+                    }
+                    Some(Err(e)) => ctx.violation("C11/verify/v3/reference-signature-rejected", format!("{e}"), replay.clone()),
+                    None => {}
+                }
+            }
+        }
+    }
+
+    // ================= key framing widths: unknown-algorithm keys with bodies > 255 and > 65535 octets
+    for (i, len) in [10usize, 300, 65530, 70000].iter().enumerate() {
+        for v in [4u8, 6] {
+            if !ctx.mine() {
+                continue;
+            }
+            let mut rng = ctx.rng("bigkey", (i * 10 + v as usize) as u64);
+            let mut material = vec![0u8; *len];
+            rng.fill_bytes(&mut material);
+            let rp = rfc::key::RefPub { version: v, created: 1_700_000_000, v3_expiry_days: 0, alg: 99, material };
+            let body = rp.encode();
+            let Ok(signee) = PublicKey::try_from_reader(PacketHeader::new_fixed(Tag::PublicKey, body.len() as u32), &body[..]) else {
+                ctx.tally("bigkey.rejected", 1);
+                continue;
+            };
+            // direct key signature over that key by a zoo key of the same version (third party)
+            let Some(k) = ks.iter().find(|k| k.v6 == (v == 6) && !k.name.contains("Rsa")) else { continue };
+            let rec = RecSigner::new(&k.key.primary_key);
+            let mut c = mk_config(k.v6, SignatureType::Key, &k.key.primary_key, HashAlgorithm::Sha256, &mut rng);
+            c.hashed_subpackets = subpacket_set(1, &k.key.primary_key, &mut rng);
+            let r = ctx.guarded("C11/sign/bigkey", || json!({"len": len, "v": v}), || c.sign_key(&rec, &Password::empty(), &signee));
+            ctx.eval();
+            let fits_v4 = body.len() <= 65535;
+            match r {
+                Some(Ok(sig)) => {
+                    if v == 4 && !fits_v4 {
+                        ctx.violation("C11/sign/key-framing/v4-body-over-65535-signed", "a v4 key body longer than 65535 octets cannot be framed with a 2-octet length, yet a signature was produced", json!({"len": len}));
+                    } else {
+                        ctx.cover(&("bigkey", v, len));
+                        ctx.seen("key_framing", format!("v{v}-{}", if body.len() > 65535 { ">65535" } else if body.len() > 255 { ">255" } else { "small" }));
+                        judge_sign(ctx, "direct-key-bigkey", &sig, rec.take(), &[&key_hash_framing(&body)], json!({"len": len, "v": v}));
+                    }
+                }
+                Some(Err(_)) => {
+                    if v == 6 || fits_v4 {
+                        ctx.violation("C11/sign/key-framing/refused", format!("signing over a v{v} key with a {}-octet body was refused", body.len()), json!({"len": len, "v": v}));
+                    } else {
+                        ctx.seen("key_framing", "v4->65535-refused".to_string());
+                    }
+                }
+                None => {}
+            }
+            let _ = KeyVersion::V4;
+        }
+    }
 }
